@@ -17,6 +17,7 @@ import (
 	"errors"
 	"fmt"
 	"io"
+	"math"
 	"net/http"
 	"runtime"
 	"slices"
@@ -223,6 +224,9 @@ func (g *c02Gen) call(id string) c02Msg {
 			`"io.modelcontextprotocol/clientCapabilities":{},"io.modelcontextprotocol/clientInfo":17`, `"io.modelcontextprotocol/clientInfo":null`,
 			`"io.modelcontextprotocol/clientCapabilities":[],"io.modelcontextprotocol/clientInfo":null`)
 		return mk("bad-meta", c02AnyError, r.Choose("tools/list", "tools/call", "server/discover", "ping"), `{"_meta":{"io.modelcontextprotocol/protocolVersion":"2026-07-28",`+meta+`},"name":"echo","arguments":{}}`)
+	case x == 7:
+		// a handler whose result cannot be put on the wire (NaN): the request is still owed its one response, an error
+		return mk("unencodable-result", c02AnyError, "tools/call", `{"name":"nan","arguments":{}}`)
 	case x < 8:
 		return mk("call-ok", 0, "tools/call", fmt.Sprintf(`{"name":"echo","arguments":{"nonce":%d,"delay":%d}}`, g.n, r.Intn(6)))
 	case x < 10:
@@ -407,6 +411,9 @@ func c02Server() *mcp.Server {
 			}
 		}
 		return &mcp.CallToolResult{Content: []mcp.Content{&mcp.TextContent{Text: fmt.Sprintf("nonce-%d", a.Nonce)}}}, nil
+	})
+	s.AddTool(&mcp.Tool{Name: "nan", InputSchema: json.RawMessage(`{"type":"object"}`)}, func(ctx context.Context, req *mcp.CallToolRequest) (*mcp.CallToolResult, error) {
+		return &mcp.CallToolResult{Content: []mcp.Content{&mcp.TextContent{Text: "x"}}, StructuredContent: map[string]any{"x": math.NaN()}}, nil
 	})
 	s.AddPrompt(&mcp.Prompt{Name: "p"}, func(context.Context, *mcp.GetPromptRequest) (*mcp.GetPromptResult, error) {
 		return &mcp.GetPromptResult{}, nil
